@@ -167,6 +167,9 @@ func (m heapManager) fix(b *Bar, priority int, lazy bool) {
 }
 
 func (m heapManager) state(ch chan<- bool) {
+	// a push still in flight is not a change of the heap: without the
+	// wait the final render loop may go round for every late push.
+	m.pending.Wait()
 	m.req <- heapRequest{cmd: h_state, data: ch}
 }
 
